@@ -1,6 +1,6 @@
 """C18 -- parent / owner links always mirror containment.
 
-proof:          coq/props/C18.v (links_invariant, links_mirror, parentStyleSheet_any_depth, deleted_detached,
+proof:          coq/props/C18.v (links_invariant, links_mirror, parentStyleSheet_any_depth, deleted_detached, rejected_keeps_links,
                 set_cssRules_ok, property_ctor_ok) over the heap model coq/theories/Links.v
 tie:            after every API operation of exhaustive-small and random histories the real object graph is
                 walked; the change of containment is translated into the model's site functions (alloc / attach /
@@ -22,7 +22,7 @@ INITIAL = [
     'a, b>c { color: rgb(1,2,3); margin: 0 calc(1px + 2px) f(g(1), 2) }\n'
     '@media print { x{top:0} @media screen { y {left: 1px} @media tv { z{right:2px} '
     '@page { margin: 1cm; @top-left { content: "n" } } } } }\n'
-    '@page :first { margin: 0; @top-left { content: "x" } @bottom-right { color: red } }\n'
+    '@page :first { margin: 0; @top-left { content: "x" } @bottom-right { color: red } @top-left { left: 0; top: 1px } }\n'
     '@font-face { font-family: x; src: url(f.woff) }\n@unknown foo;',
     # 1: small, two levels
     '@media print { @media screen { a{x:1} } } b{y:2}',
@@ -37,7 +37,7 @@ IMPORTED = b'@media print { @media tv { i{j:k} } } l{m:n} @page { @top-left { o:
 RULE_TEXTS = ['c{z:3}', '@media tv { d{w:4} }', '@media screen { @media print { e{v:5} @media tv { g{h:6} } } }',
               '@page :left { margin: 1cm; @top-left { content: "t" } }', '/* k */', '@font-face { font-family: f }',
               '@import "i.css" screen;', '@namespace p "u2";', '@charset "ascii";', 'bad {', '@top-right { color: red }',
-              '@unknown x;', 'h, i { j: k(l(1)) }']
+              '@unknown x;', 'h, i { j: k(l(1)) }', '@page { @top-left { a: b } @top-left { c: d } }']
 STYLE_TEXTS = ['color: red', 'margin: 0 calc(1px + 2px) f(g(1), 2); color: rgb(1,2,3) !important', '', 'x:',
                'top: 0; $bad; left: 1px', 'a: b; a: c']
 SELECTOR_TEXTS = ['a', 'a, b > c', 'h1:hover, .k', ',', 'q|b', 'b > c']
@@ -55,7 +55,10 @@ CSSTEXT = {
     'decl': ['a: b; c: d e', 'k: rgb(1,2,3)', '!'],
     'prop': ['k: v w', 'y: ;'],
     'pv': ['1px 2px', 'f(1, g(2))', ')'],
-    'sheet': ['m{n:o} @media print { @media tv { p{q:r} } }', ''],
+    # accepted, then rejected ones: misplaced @namespace / @import / @charset, undeclared prefix, unbalanced junk
+    'sheet': ['m{n:o} @media print { @media tv { p{q:r} } }', '', 'p { top: 0 } @namespace x "u";', 'p{} @import "x.css";',
+              'p{left:0} @charset "utf-8";', 'q|a { top: 0 }', '@media print { a{b:c} } @namespace y "v"; d{e:f}',
+              'a{x:1} @page { @top-left { y:2 } } }junk{'],
 }
 NEW_KINDS = ['stylerule', 'media', 'page', 'margin', 'fontface', 'comment', 'decl', 'prop', 'sellist', 'selector',
              'medialist', 'import']
@@ -347,13 +350,16 @@ class World:
 
 
 CONTAINER = ('sheet', 'media', 'page')
+POOLABLE = ('stylerule', 'media', 'page', 'margin', 'fontface', 'import', 'rule', 'decl', 'prop', 'sellist', 'selector',
+            'medialist')
 RULECATS = ('stylerule', 'media', 'page', 'margin', 'fontface', 'import', 'rule')
 STYLED = ('stylerule', 'page', 'fontface', 'margin')
 # op name -> (target categories, generator of the remaining arguments)
 OPS = {
-    'insert_text': (CONTAINER, lambda g: {'text': g.choice(RULE_TEXTS), 'idx': g.choice([None, None, 0, 1, 2])}),
-    'insert_obj': (CONTAINER, lambda g: {'src': g.randrange(8), 'idx': g.choice([None, None, 0, 1])}),
-    'delete': (CONTAINER, lambda g: {'idx': g.choice([0, 0, 1, 2, -1]), 'byobj': g.random() < 0.3}),
+    # idx 99: not clamped, an invalid index (IndexSizeErr)
+    'insert_text': (CONTAINER, lambda g: {'text': g.choice(RULE_TEXTS), 'idx': g.choice([None, None, 0, 1, 2, 99])}),
+    'insert_obj': (CONTAINER, lambda g: {'src': g.randrange(8), 'idx': g.choice([None, None, 0, 1, 99])}),
+    'delete': (CONTAINER, lambda g: {'idx': g.choice([0, 0, 1, 2, -1, 99]), 'byobj': g.random() < 0.3}),
     'set_cssrules': (CONTAINER, lambda g: {'srcs': [g.randrange(8) for _ in range(g.choice([0, 1, 2]))]}),
     'set_style_text': (STYLED, lambda g: {'text': g.choice(STYLE_TEXTS)}),
     'set_style_obj': (STYLED, lambda g: {'src': g.randrange(8)}),
@@ -366,7 +372,8 @@ OPS = {
     'set_media_obj': (('media', 'import'), lambda g: {'src': g.randrange(8)}),
     'medialist_text': (('medialist',), lambda g: {'text': g.choice(MEDIA_TEXTS)}),
     'append_medium': (('medialist',), lambda g: {'text': g.choice(MEDIA_TEXTS)}),
-    'set_csstext': (tuple(CSSTEXT), lambda g: {'k': g.randrange(4)}),
+    'set_csstext': (tuple(CSSTEXT), lambda g: {'k': g.randrange(8)}),
+    'sheet_csstext': (('sheet',), lambda g: {'k': g.randrange(8)}),
     'set_property': (('decl',), lambda g: {'k': g.randrange(len(PROPS)), 'replace': g.random() < 0.7}),
     'set_property_obj': (('decl',), lambda g: {'src': g.randrange(8), 'replace': g.random() < 0.5}),
     'remove_property': (('decl',), lambda g: {'k': g.randrange(len(PROPS))}),
@@ -423,7 +430,15 @@ def apply_op(w, d, step):
         return False
     deleted_from, deleted = None, None
     added_obj = None
-    if name in ('set_csstext', 'set_cssrules') and cat_of(t) in CONTAINER:
+    # both error modes: rejected input raises an xml.dom exception (rx) or is only logged
+    cp.log.raiseExceptions = bool(d.get('rx', False))
+    # the user holds references to (two of) the target's current elements: whatever the call replaces or removes
+    # (a style, a selector list, a media list, a property, a selector, a rule) can be handed to another object later
+    if name != 'new':
+        for _, x in kids_of(t)[:2]:
+            if cat_of(x) in POOLABLE and all(x is not y for y in w.pool):
+                w.pool.append(x)
+    if name in ('set_csstext', 'sheet_csstext', 'set_cssrules') and cat_of(t) in CONTAINER:
         # the user keeps references to rules that the assignment is going to drop (they are not detached by it)
         for x in list(t.cssRules)[:2]:
             if all(x is not y for y in w.pool):
@@ -433,7 +448,7 @@ def apply_op(w, d, step):
             if d['idx'] is None:
                 t.add(d['text'])
             else:
-                t.insertRule(d['text'], min(d['idx'], len(t.cssRules)))
+                t.insertRule(d['text'], d['idx'] if d['idx'] >= 90 else min(d['idx'], len(t.cssRules)))
         elif name == 'insert_obj':
             allowed = ('stylerule', 'media', 'page', 'fontface', 'rule', 'import') if cat_of(t) != 'page' else ('margin',)
             src = w.free(allowed, d['src'], 'margin' if cat_of(t) == 'page' else ['stylerule', 'media', 'page', 'fontface', 'comment'][d['src'] % 5])
@@ -444,20 +459,23 @@ def apply_op(w, d, step):
             if d['idx'] is None:
                 t.add(src)
             else:
-                t.insertRule(src, min(d['idx'], len(t.cssRules)))
+                t.insertRule(src, d['idx'] if d['idx'] >= 90 else min(d['idx'], len(t.cssRules)))
             added_obj = src
         elif name == 'delete':
-            if not len(t.cssRules):
+            if d['idx'] >= 90:
+                t.deleteRule(d['idx'])      # out of range: IndexSizeErr, nothing may change
+            elif not len(t.cssRules):
                 return False
-            i = d['idx'] if d['idx'] < len(t.cssRules) else len(t.cssRules) - 1
-            deleted = t.cssRules[i]
-            n0 = len(t.cssRules)
-            t.deleteRule(deleted if d['byobj'] else i)
-            if len(t.cssRules) < n0:
-                deleted_from = w.mid(t)
-                w.pool.append(deleted)
             else:
-                deleted = None
+                i = d['idx'] if d['idx'] < len(t.cssRules) else len(t.cssRules) - 1
+                deleted = t.cssRules[i]
+                n0 = len(t.cssRules)
+                t.deleteRule(deleted if d['byobj'] else i)
+                if len(t.cssRules) < n0:
+                    deleted_from = w.mid(t)
+                    w.pool.append(deleted)
+                else:
+                    deleted = None
         elif name == 'set_cssrules':
             allowed = ('stylerule', 'media', 'fontface', 'rule') if cat_of(t) != 'page' else ('margin',)
             srcs = []
@@ -503,7 +521,7 @@ def apply_op(w, d, step):
             t.mediaText = d['text']
         elif name == 'append_medium':
             t.appendMedium(d['text'])
-        elif name == 'set_csstext':
+        elif name in ('set_csstext', 'sheet_csstext'):
             texts = CSSTEXT[cat_of(t)]
             t.cssText = texts[d['k'] % len(texts)]
         elif name == 'set_property':
@@ -557,7 +575,7 @@ def apply_op(w, d, step):
 
 def gen_op(g):
     name = g.choice(OPNAMES)
-    d = {'op': name, 't': g.randrange(12)}
+    d = {'op': name, 't': g.randrange(12), 'rx': g.random() < 0.4}
     d.update(OPS[name][1](g))
     return d
 
@@ -600,6 +618,22 @@ def small_alphabet():
     al.append({'op': 'set_csstext', 't': 1, 'k': 0})
     al.append({'op': 'set_csstext', 't': 1, 'k': 1})
     al.append({'op': 'set_csstext', 't': 3, 'k': 0})
+    # rejected variants, in both error modes
+    for rx in (False, True):
+        al.append({'op': 'sheet_csstext', 't': 0, 'k': 2, 'rx': rx})
+        al.append({'op': 'sheet_csstext', 't': 0, 'k': 5, 'rx': rx})
+        al.append({'op': 'set_csstext', 't': 1, 'k': 1, 'rx': rx})
+        al.append({'op': 'insert_text', 't': 1, 'text': '@import "i.css" screen;', 'idx': 0, 'rx': rx})
+        al.append({'op': 'insert_text', 't': 0, 'text': 'c{z:3}', 'idx': 99, 'rx': rx})
+        al.append({'op': 'delete', 't': 0, 'idx': 99, 'byobj': False, 'rx': rx})
+    al.append({'op': 'sheet_csstext', 't': 0, 'k': 0})
+    al.append({'op': 'insert_text', 't': 0, 'text': '@page { @top-left { a: b } @top-left { c: d } }', 'idx': None})
+    al.append({'op': 'remove_property', 't': 0, 'k': 4})
+    al.append({'op': 'set_csstext', 't': 6, 'k': 0})
+    al.append({'op': 'set_property_obj', 't': 1, 'src': 1, 'replace': False})
+    al.append({'op': 'set_selector_text', 't': 0, 'text': 'q|b', 'rx': True})
+    al.append({'op': 'set_style_text', 't': 0, 'text': 'top: 0; $bad; left: 1px', 'rx': True})
+    al.append({'op': 'set_media_text', 't': 0, 'text': '3d', 'rx': True})
     al.append({'op': 'set_style_text', 't': 0, 'text': 'margin: 0 f(g(1), 2)'})
     al.append({'op': 'set_style_obj', 't': 0, 'src': 0})
     al.append({'op': 'set_selector_text', 't': 0, 'text': 'a, b > c'})
@@ -660,6 +694,7 @@ def compare(exp, line):
 
 def run(ctx):
     thorough = ctx.tier == "thorough"
+    ctx.regen("links")      # attribute writes of the rule-list sites + shape of the sheet.cssText rollback -> Gen/LinkSites.v
     ctx.coq_build("props/C18.v")
     binary = ctx.ocaml_build("links")
     corpus = []
@@ -779,7 +814,9 @@ TRUSTED = [
     "harness/props/c18.py: the graph walker kids_of (which attributes are containment), the translation of an API call's "
     "effect on containment into alloc/attach/detach/drop steps (generic: by container kind and role; detach only for "
     "deleteRule), the comparison by identity",
-    "modelled by hand, not verified: the attribute writes of each assignment site (coq/theories/Links.v site_writes, "
+    "translate/links.py (regenerates the attribute writes of insertRule / _finishInsertRule / deleteRule / the two loops of "
+    "both cssRules setters and the clear / rollback shape of CSSStyleSheet._setCssText; fail-closed)",
+    "modelled by hand, not verified: the attribute writes of the remaining assignment sites (coq/theories/Links.v site_writes, "
     "dsite_writes) and the derivations of the accessors; tied by the comparison of every stored attribute after every operation",
     "external to the model: which insertions the hierarchy checks accept, where add() places a rule, and the shape of parsed "
     "text (they decide WHICH steps happen, the model decides what each step writes)",
